@@ -121,8 +121,26 @@ COQ_ARGS = ["-noglob", "-Q", str(COQ), "KioV"]
 
 
 def coqc(build_dir: Path, file: str, timeout=600) -> tuple[int, str, float]:
-    return run(["timeout", str(timeout), "coqc", *COQ_ARGS, "-Q", str(build_dir), "KioG", file],
-               cwd=build_dir, timeout=timeout + 30)
+    rc, out, dt = run(["timeout", str(timeout), "coqc", *COQ_ARGS, "-Q", str(build_dir), "KioG", file],
+                      cwd=build_dir, timeout=timeout + 30)
+    if rc != 0 and "Error" not in (out or ""):
+        # died without a Coq diagnostic (memory / overloaded machine): once more, with a longer limit
+        rc, out, dt2 = run(["timeout", str(3 * timeout), "coqc", *COQ_ARGS, "-Q", str(build_dir), "KioG", file],
+                           cwd=build_dir, timeout=3 * timeout + 30)
+        dt += dt2
+    return rc, out, dt
+
+
+def coq_result(build_dir: Path, name: str, p) -> tuple[int, str]:
+    """Outcome of a coqc process started on build_dir/name.v.  A process that died WITHOUT a Coq
+    diagnostic (killed for memory, or timed out on an overloaded machine) says nothing about the
+    model: it is re-run once, alone, with a longer limit."""
+    out = p.communicate()[0]
+    rc = p.returncode
+    if rc != 0 and "Error" not in (out or "") and (build_dir / f"{name}.v").exists():
+        rc, out, _ = run(["timeout", "3000", "coqc", *COQ_ARGS, "-Q", str(build_dir), "KioG", f"{name}.v"],
+                         cwd=build_dir, timeout=3030)
+    return rc, out
 
 
 def build_instance() -> tuple[Path | None, str]:
